@@ -5,6 +5,7 @@ package main
 // the flag variables are driven in-process, over the HDF5 stand-in.
 
 import (
+	"flag"
 	"fmt"
 	"math"
 	"os"
@@ -22,6 +23,16 @@ import (
 )
 
 func TestMain(m *testing.M) {
+	// ow-sim's split-output option re-executes its own binary with -writer <file>, reading a protobuf
+	// stream on stdin. Here that binary is this test binary: serve the request and exit.
+	for _, a := range os.Args[1:] {
+		if a == "-writer" || a == "--writer" {
+			flag.Parse()
+			hdf5.Persist = true
+			run_writer(flag.Args())
+			os.Exit(0)
+		}
+	}
 	id := "C07"
 	if os.Getenv("VERIF_PROPERTY") != "" {
 		id = os.Getenv("VERIF_PROPERTY")
@@ -54,6 +65,7 @@ type Case struct {
 	InputsFor, NoInputsFor                         []string `json:",omitempty"`
 	SepParams, SepStates, SepSeries, SepFinalState bool
 	WriterDelayUs, ReaderDelayUs                   int // injected at every mutating / reading stand-in call
+	Split                                          []string `json:",omitempty"` // models whose results go to their own file through the -outputs writer sub-process
 	Repeat                                         int // C05: run the same graph this many times and compare
 	Procs                                          int // C05: GOMAXPROCS
 }
@@ -141,6 +153,15 @@ func gen(t *rapid.T) Case {
 		c.NoOutputsFor = subset(t, names, "nof")
 		c.InputsFor = subset(t, names, "if")
 		c.NoInputsFor = subset(t, names, "nif")
+	}
+	if c.OutputFile && rapid.IntRange(0, 7).Draw(t, "split") == 0 {
+		// the split model must have nodes in the last generation: only then does ow-sim close the writer's
+		// pipe and wait for it (otherwise the sub-process outlives run_simulation; see DESIGN.md)
+		for _, ms := range c.Models {
+			if len(ms.Gens[c.G-1]) > 0 && rapid.Bool().Draw(t, "splitThis") {
+				c.Split = append(c.Split, ms.Name)
+			}
+		}
 	}
 	c.SepParams = rapid.IntRange(0, 3).Draw(t, "sp") == 0
 	c.SepStates = rapid.IntRange(0, 3).Draw(t, "ss") == 0
@@ -249,7 +270,10 @@ func reference(c Case) refResult {
 
 var caseSeq int
 
-type files struct{ in, out, params, states, series, finalStates string }
+type files struct {
+	in, out, params, states, series, finalStates string
+	split                                       map[string]string
+}
 
 func writeInputFile(c Case, f files) error {
 	for _, fn := range []string{f.in, f.params, f.states, f.series} {
@@ -360,6 +384,11 @@ func setFlags(c Case, f files) {
 		*statesOutputFile = f.finalStates
 	}
 	*splitOutputs = ""
+	var pairs []string
+	for _, m := range c.Split {
+		pairs = append(pairs, m+"="+f.split[m])
+	}
+	*splitOutputs = strings.Join(pairs, ",")
 	*writerMode = false
 	verbose = false
 }
@@ -399,6 +428,10 @@ func runOnce(c Case, log bool) (files, error) {
 	if c.SepFinalState {
 		f.finalStates = p("final")
 	}
+	f.split = map[string]string{}
+	for _, m := range c.Split {
+		f.split[m] = p("split_" + m)
+	}
 	if err := writeInputFile(c, f); err != nil {
 		return f, err
 	}
@@ -420,6 +453,7 @@ func runOnce(c Case, log bool) (files, error) {
 		}
 	}
 	hdf5.LogCalls = log
+	hdf5.Persist = len(c.Split) > 0
 	args := []string{f.in}
 	if c.OutputFile {
 		args = append(args, f.out)
@@ -427,7 +461,7 @@ func runOnce(c Case, log bool) (files, error) {
 	quiet(func() { run_simulation(args) })
 	hdf5.Hook = nil
 	hdf5.LogCalls = false
-	return f, nil
+	return f, nil // hdf5.Persist stays as set: the caller still reads the writer process's files
 }
 
 func sameBits(a, b float64) bool {
@@ -461,6 +495,11 @@ func compareWithReference(c Case, f files, ref refResult) string {
 			{f.out, "outputs", wantOut, ref.outputs[ms.Name], len(desc.Outputs) * c.T},
 			{f.out, "inputs", wantIn, ref.inputs[ms.Name], len(desc.Inputs) * c.T},
 			{f.finalStates, "states", true, ref.states[ms.Name], stateWidth},
+		}
+		if dest := f.split[ms.Name]; dest != "" {
+			// results of this model travel to the writer sub-process, which owns its own file
+			specs[0].file, specs[1].file = dest, dest
+			specs = specs[:2] // final states: see the split-writer note in DESIGN.md (not part of the stream)
 		}
 		for _, sp := range specs {
 			vals, dims, ok := hdf5.FakeFloat64s(sp.file, base+sp.name)
@@ -529,6 +568,7 @@ func checkWriteLog(c Case, f files) string {
 	for _, ms := range c.Models {
 		wantOut := writeForRef(ms.Name, c.OutputsFor, c.NoOutputsFor, true)
 		wantIn := writeForRef(ms.Name, c.InputsFor, c.NoInputsFor, len(ms.Gens[0]) == 0)
+		split := contains(c.Split, ms.Name) // written by the writer sub-process, not here
 		off := 0
 		for g := range ms.Gens {
 			n := len(ms.Gens[g])
@@ -540,6 +580,12 @@ func checkWriteLog(c Case, f files) string {
 					k := key{"/MODELS/" + ms.Name + "/" + ds.name, uint(off)}
 					got := writes[k]
 					delete(writes, k)
+					if split {
+						if got != 0 {
+							return fmt.Sprintf("generation %d of %s: %s written in-process although the model's results go to the writer sub-process", g, ms.Name, ds.name)
+						}
+						continue
+					}
 					if ds.want && got != 1 {
 						return fmt.Sprintf("generation %d of %s: block %s at row %d written %d times, expected exactly once", g, ms.Name, ds.name, off, got)
 					}
@@ -594,6 +640,9 @@ func label(c Case, r *pbt.Result) {
 	}
 	if !c.OutputFile {
 		r.Label("no-output-file")
+	}
+	if len(c.Split) > 0 {
+		r.Label("split-output-writer-process")
 	}
 	if c.WriterDelayUs > 0 {
 		r.Label("slow-writer")
